@@ -419,7 +419,25 @@ func (g *Gen) stakingTx() Op {
 		}
 		return Op{K: "undelegate", Creator: who, Val: v, Amount: amt}
 	case 6:
-		return Op{K: "reset", Creator: n, Status: []uint32{15, 15, 15, 13, 7}[r.Intn(5)], PeerOk: &t, Val: r.Intn(len(g.W.C.Vals) + 1)}
+		rop := Op{K: "reset", Creator: n, Status: []uint32{15, 15, 15, 13, 7}[r.Intn(5)], PeerOk: &t, Val: r.Intn(len(g.W.C.Vals) + 1)}
+		if r.Chance(50) {
+			// a node that holds the super role re-declares itself, usually with another validator (or none)
+			for _, nd := range g.W.C.App.NodeKeeper.GetAllNode(g.W.C.Ctx()) {
+				if nd.Role == 1 && r.Chance(60) {
+					rop.Creator = g.acctIndex(nd.Creator)
+					rop.Status = []uint32{15, 15, 15, 13}[r.Intn(4)]
+					cur := 0
+					for i, v := range g.W.C.Vals {
+						if v.Addr.String() == nd.Validator {
+							cur = i + 1
+						}
+					}
+					rop.Val = []int{0, 1, 2, cur}[r.Intn(4)]
+					break
+				}
+			}
+		}
+		return rop
 	case 7:
 		return Op{K: "addv", Creator: n, Size: uint64(r.Intn(8_000_000))}
 	case 8:
@@ -1312,6 +1330,30 @@ func (g *Gen) faultTx() Op {
 	reporter := []int{1, 2, 1, 2, 3, 11}[r.Intn(6)]
 	var fs []FaultIn
 	var prov int
+	if r.Chance(15) {
+		// a fishman names an order and a live shard the accused holds — but for a *different* order
+		bySp := map[string][]ordertypes.Shard{}
+		for _, x := range li.shards {
+			if x.Status == ordertypes.ShardCompleted && int64(x.CreatedAt+x.Duration) > g.W.C.Height {
+				bySp[x.Sp] = append(bySp[x.Sp], x)
+			}
+		}
+		for _, nd := range g.Nodes {
+			l := bySp[g.W.acct(nd)]
+			if len(l) >= 2 {
+				a, b := l[r.Intn(len(l))], l[r.Intn(len(l))]
+				if a.Id == b.Id || a.OrderId == b.OrderId {
+					continue
+				}
+				for _, o := range li.orders {
+					if o.Id == a.OrderId {
+						return Op{K: "report", Creator: []int{1, 2}[r.Intn(2)], Provider: nd + 1,
+							Faults: []FaultIn{{DataId: o.DataId, OrderId: o.Id, ShardId: b.Id, CommitId: "no-such-commit", Provider: nd + 1}}}
+					}
+				}
+			}
+		}
+	}
 	for k := 0; k < 1+r.Intn(2); k++ {
 		if len(li.shards) == 0 {
 			break
@@ -1355,10 +1397,10 @@ func (g *Gen) faultTx() Op {
 			f.Provider = 1 + r.Intn(6)
 		case 5:
 			f.CommitId = ""
-		case 6, 10, 11:
+		case 6, 10, 11, 12, 13, 14:
 			// a live shard the same provider holds for a *different* order
 			for _, s2 := range li.shards {
-				if s2.Sp == s.Sp && s2.Id != s.Id {
+				if s2.Sp == s.Sp && s2.Id != s.Id && s2.Status == ordertypes.ShardCompleted && int64(s2.CreatedAt+s2.Duration) > g.W.C.Height {
 					f.ShardId = s2.Id
 				}
 			}
